@@ -10,7 +10,7 @@ def run(res):
     res.rule = tarun.RULE
     res.assumptions += ["pool and CPU choices of the policy are oracles read off the implementation's grants (validity checked by the guarded model step)",
                         "balloons-policy half of this property: see DESIGN.md (covered by the C02 harness where built)"]
-    tarun.run(res, "C12:")
+    tarun.run(res, "C12:", cfgchanges=True)
     res.samples += [f"theorem {n}" for n in names[:30]]
 
 
